@@ -106,6 +106,9 @@ def check_code(n, via):
 
 
 def run_case(case):
+    if case.get("kind") == "mid-call":
+        from .. import midcall
+        return midcall.run_case(case)
     if "hist" in case:
         return check_history(case["hist"], case.get("e", False))
     return check_code(case["n"], case["via"])
@@ -160,7 +163,11 @@ def main(ctx):
     common.hyp_collect(cases, body, n_rand, ctx.seed)
     # the very first calls of a process, made by two threads at once (fresh interpreter per scenario)
     list(common.first_use_sweep(col, "c17", "predicate_k(n) <=> n//1000 == k - from the first call of the process, in every thread"))
-    ctx.required_classes = ["first-use-parked-mid-call", "int", "answer", "decoded", "n>65535", "answer-e", "decoded-e", "history-in-place-change", "answer+exp", "decoded+exp"]
+    # ... and at any later time: one thread parked at each source line of a classification while another classifies (vf/midcall.py)
+    from .. import midcall
+    midcall.sweep(col, "c17", "predicate_k(n) <=> n//1000 == k - whatever another thread is classifying at the same time",
+                  ks=[1, 4] if ctx.quick else list(range(1, len(midcall.C17_CODES))), nmax=90)
+    ctx.required_classes = ["mid-call-parked", "first-use-parked-mid-call", "int", "answer", "decoded", "n>65535", "answer-e", "decoded-e", "history-in-place-change", "answer+exp", "decoded+exp"]
     ctx.assumptions = ["multiples of 1000 and answers without a Result-Code AVP are outside the statement",
                        "answer-object predicates are exercised on DiameterAnswer objects holding ResultCodeAVP(n), built and decoded"]
     return col
